@@ -16,6 +16,7 @@
    constructor for ([ad_expressible l], spelled out in c16_expressible_effects). *)
 From Coq Require Import NArith List Bool.
 From AV Require Import Generated.Adapters Spec.Sgr Spec.Targets Model.Adapters Proofs.Adapters.
+From AV Require Import Model.Base Generated.AdaptersFn Proofs.AdaptersGen Proofs.AdaptersGenSpec.
 Import ListNotations.
 Local Open Scope N_scope.
 
@@ -166,3 +167,63 @@ Theorem c16_syntect_keeps : forall r g b a r' g' b' a' font, font < 256 ->
   N.testbit (s_eff s) ITALIC = N.testbit font 2 /\
   N.ldiff (s_eff s) (N.lor (bit BOLD) (N.lor (bit UNDERLINE) (bit ITALIC))) = 0.
 Proof. exact ad_syntect_keeps. Qed.
+
+(* ---- the translated code (tools/gen_fn_adapters.py -> Generated/AdaptersFn.v) ------------------
+   [g_to_ansi_term], [g_to_crossterm], [g_to_owo_style], [g_to_termcolor_spec], [g_to_yansi_style]
+   ([g_convert l] by library) and [g_syn_to_anstyle] are the Rust functions of the six conversion
+   crates translated by tools/rs2v on every run: which effect switches which attribute on, in which
+   order, under which condition, which colour goes to which slot.  [Some t] = the function returns
+   t, [None] = it would panic.  The third-party builder methods they call are the vocabulary at the
+   end of Model/Adapters.v (a target style = the colour constructors chosen and the attribute calls
+   made, by name, in call order). *)
+
+(* every translated adapter IS the hand model the theorems above are about *)
+Theorem c16_translated_ansi_term_is_model : forall s, ad_src_ok s ->
+  g_to_ansi_term s = Some (ad_to_ansi_term s).
+Proof. exact g_to_ansi_term_eq. Qed.
+
+Theorem c16_translated_crossterm_is_model : forall s, ad_src_ok s ->
+  g_to_crossterm s = Some (ad_to_crossterm s).
+Proof. exact g_to_crossterm_eq. Qed.
+
+Theorem c16_translated_owo_colors_is_model : forall s, ad_src_ok s ->
+  g_to_owo_style s = Some (ad_to_owo s).
+Proof. exact g_to_owo_style_eq. Qed.
+
+Theorem c16_translated_termcolor_is_model : forall s, ad_src_ok s ->
+  g_to_termcolor_spec s = Some (ad_to_termcolor s).
+Proof. exact g_to_termcolor_spec_eq. Qed.
+
+Theorem c16_translated_yansi_is_model : forall s, ad_src_ok s ->
+  g_to_yansi_style s = Some (ad_to_yansi s).
+Proof. exact g_to_yansi_style_eq. Qed.
+
+Theorem c16_translated_syntect_is_model : forall fg bg font,
+  g_syn_to_anstyle (mkAdSyn fg bg font) = Some (ad_from_syntect fg bg font).
+Proof. exact g_syn_to_anstyle_eq. Qed.
+
+(* all entry points in one statement *)
+Theorem c16_translated_adapters_are_model :
+  (forall l s, ad_src_ok s -> g_convert l s = Some (ad_convert l s)) /\
+  (forall fg bg font, g_syn_to_anstyle (mkAdSyn fg bg font) = Some (ad_from_syntect fg bg font)).
+Proof. exact translated_adapters_are_model. Qed.
+
+(* the colour functions as translated (16-way match, indexed, RGB), per crate *)
+Theorem c16_translated_colours_are_model : forall c, ad_colour_ok (Some c) ->
+  g_at_to_ansi_color (ad_color_of c) = Some (ad_at_colour c) /\
+  g_ct_to_ansi_color (ad_color_of c) = Some (ad_conv_colour ad_gen_crossterm_colors c) /\
+  g_to_owo_colors (ad_color_of c) = Some (ad_conv_colour ad_gen_owo_colors c) /\
+  g_to_termcolor_color (ad_color_of c) = Some (ad_conv_colour ad_gen_termcolor_colors c) /\
+  g_to_yansi_color (ad_color_of c) = Some (ad_conv_colour ad_gen_yansi_colors c).
+Proof. exact translated_colours_are_model. Qed.
+
+(* hence the property for the translated code: no panic, and the style built means the projection
+   of the source style onto what the library can express *)
+Theorem c16_translated_style_meaning : forall l s, ad_src_ok s ->
+  (t <- g_convert l s ;; ad_meaning l t) = Some (ad_project l s).
+Proof. exact translated_convert_meaning. Qed.
+
+Theorem c16_translated_syntect_keeps : forall r g b a r' g' b' a' font, font < 256 ->
+  g_syn_to_anstyle (mkAdSyn (r, g, b, a) (r', g', b', a') font) =
+  Some (ad_syntect_expected (r, g, b, a) (r', g', b', a') font).
+Proof. exact translated_syntect_expected. Qed.
